@@ -1,4 +1,5 @@
 import SamplyModel.Lemmas.ConvStacks
+import SamplyModel.Lemmas.ConvJit
 import SamplyModel.Model.SvmaBias
 /-!
 # C02 — frames are attributed to the library mapped at that address at sample time
@@ -8,7 +9,12 @@ Model: `Model/Converter.lean` (`step` for MMAP2 / FORK: the per-process mapping 
 `convertStack` = first and second pass of `stack_converter.rs`).
 Specification side: `ConvSpec.resolveDecl` / `ConvSpec.expectFrame` — among the mappings announced at or
 before the sample's timestamp, the most recently announced one covering the lookup address that no later
-announced mapping overlaps.
+announced mapping overlaps (or replaces at the same start address).
+
+JIT frames: the functions declared by `/tmp/perf-<pid>.map` (`ConvSpec.pmDecl`: file order, cumulative relative
+addresses inside the fake library) form the last level of the mapping hierarchy — a regular mapping wins over
+a perf-map function covering the same address (`ConvSpec.resolveH`) — and every frame of a function classified
+as JS is preceded by a label frame carrying the JS name (`ConvSpec.expandJs`).
 
 The theorems quantify over every queue (sorted by timestamp — discharged for converter histories below),
 every buffer of samples in nondecreasing time order, every address and every stack.
@@ -31,10 +37,10 @@ theorem C02_later_mapping_irrelevant (q q' : List (Nat × MapAdd)) (ts : Nat) (h
 
 /-- Every sample of a buffer is converted against the table of the mappings announced at or before *its own*
 timestamp — independently of the samples flushed before it. -/
-theorem C02_flush (q : List (Nat × MapAdd)) (us : List USample) (hq : SortedQ q)
+theorem C02_flush (pm : List MapAdd) (q : List (Nat × MapAdd)) (us : List USample) (hq : SortedQ q)
     (hu : us.Pairwise (fun a b => a.tmono ≤ b.tmono)) :
-    flushBuffer [] q us = us.map (fun u => flushOne (tableFrom [] q u.tmono) u) :=
-  flushBuffer_spec [] q us hq hu
+    flushBuffer pm [] q us = us.map (fun u => flushOne pm (tableFrom [] q u.tmono) u) :=
+  flushBuffer_spec pm [] q us hq hu
 
 /-- Attribution: each frame resolves by the declarative rule — user-mode frames to the newest live mapping
 covering the lookup address (instruction pointer as is, return address minus one, saturating), with
@@ -43,6 +49,40 @@ kernel-mode frames stay raw. -/
 theorem C02_attribution (q : List (Nat × MapAdd)) (t : Nat) (f : SFrame) :
     convertFrame (tableFrom [] q t) f = expectFrame q t f :=
   convertFrame_eq_expect q t f
+
+/-- Attribution through the whole hierarchy: with the perf-map functions `cands` (in file order) as last
+level, the second pass yields, for every frame, the library / relative address **and** the JS classification
+of the mapping the declarative rule `resolveH` names: a regular mapping announced at or before `t` if one
+is live at the lookup address, else the last declared perf-map function covering it that no later line
+displaced, else the raw address. -/
+theorem C02_attribution_jit (q : List (Nat × MapAdd)) (t : Nat) (cands : List MapAdd) (f : SFrame) :
+    secondPass (tableFrom [] q t) (cands.foldl applyAdd []) f = expectInfo q t cands f :=
+  secondPass_eq_expect q t cands f
+
+/-- The perf-map level the converter builds for a pid (`try_load_perf_map`, when it does not panic) is the
+table of exactly the functions the file declares (`pmCands`: well-formed lines in file order, relative
+address = sum of the earlier sizes), so `C02_attribution_jit` applies to it. No file ⇒ empty level. -/
+theorem C02_perf_map_table (cfg : Config) (pid : Nat) (h : (loadPerfMap cfg pid).isSome = true) :
+    perfMapTable cfg pid = (pmCands cfg pid).foldl applyAdd [] :=
+  perfMapTable_eq cfg pid h
+
+/-- The loader panics (debug build) exactly when a line's range leaves `u64` or the sizes (as `u32`) add up
+beyond `u32`; malformed lines are skipped by `filterMap parsePmLine` and never matter. -/
+theorem C02_perf_map_load_safe_iff (path : String) (ls : List PmLine) :
+    (loadPmLines path [] 0 ls).isSome = true ↔
+      (∀ l ∈ ls, l.addr + l.len < 2 ^ 64) ∧ (ls.map (fun l => l.len % 2 ^ 32)).sum < 2 ^ 32 := by
+  have := loadPmLines_isSome_iff path [] 0 ls (by decide)
+  simpa using this
+
+/-- Regular mappings win: where a regular mapping is live the perf map is not consulted; elsewhere the
+perf-map rule decides alone. -/
+theorem C02_hierarchy (q : List (Nat × MapAdd)) (t : Nat) (pm : List MapAdd) (a : Nat) :
+    (∀ m, resolveDecl q t a = some m → resolveH q t pm a = some m) ∧
+    (resolveDecl q t a = none → resolveH q t pm a = resolveDecl.go a pm) := by
+  unfold resolveH
+  constructor
+  · intro m h; rw [h]
+  · intro h; rw [h]
 
 theorem C02_lookup_address (a : Nat) (k : Bool) :
     (SFrame.ip a k).lookupAddr = a ∧ (SFrame.ret a k).lookupAddr = a - 1 := ⟨rfl, rfl⟩
@@ -57,6 +97,29 @@ theorem C02_resolve_sound (q : List (Nat × MapAdd)) (t a : Nat) (m : MapAdd) (h
   have hc := List.find?_some h
   simp only [covers, Bool.and_eq_true, decide_eq_true_eq] at hc
   exact ⟨mem_live hm, hc.1, hc.2⟩
+
+/-- The same for the hierarchy: what `resolveH` yields is a regular mapping announced at or before `t`, or —
+only if no regular mapping is live at the address — a function the perf map declares; it covers the address. -/
+theorem C02_resolve_sound_jit (q : List (Nat × MapAdd)) (t : Nat) (pm : List MapAdd) (a : Nat) (m : MapAdd)
+    (h : resolveH q t pm a = some m) :
+    (m ∈ (q.filter (fun e => decide (e.1 ≤ t))).map (·.2) ∨ (resolveDecl q t a = none ∧ m ∈ pm)) ∧
+      m.start ≤ a ∧ a < m.end_ := by
+  unfold resolveH at h
+  cases hr : resolveDecl q t a with
+  | some r =>
+    rw [hr] at h
+    simp only [Option.some.injEq] at h
+    subst h
+    have := C02_resolve_sound q t a r hr
+    exact ⟨Or.inl this.1, this.2⟩
+  | none =>
+    rw [hr] at h
+    simp only at h
+    rw [go_eq_find] at h
+    have hm := List.mem_of_find?_eq_some h
+    have hc := List.find?_some h
+    simp only [covers, Bool.and_eq_true, decide_eq_true_eq] at hc
+    exact ⟨Or.inr ⟨rfl, mem_live hm⟩, hc.1, hc.2⟩
 
 /-- … and it is complete: if some announced mapping covers the address and nothing announced later (at or
 before `t`) overlaps it, the address is resolved (to that mapping: live mappings covering one address are
@@ -81,13 +144,62 @@ theorem C02_resolve_complete (cands : List MapAdd) (a : Nat) (pre later : List M
     unfold resolveDecl.go
     rw [ih]
 
-/-- Call-chain order: the output frame list is the converted chain reversed (root first); no frame is
-dropped or invented by the conversion. -/
-theorem C02_order (maps : List MapAdd) (stack : List SFrame) :
-    convertStack maps stack = (stack.map (convertFrame maps)).reverse ∧
-    (convertStack maps stack).length = stack.length := by
-  unfold convertStack
-  simp [List.map_reverse]
+/-- Completeness through the hierarchy: where no regular mapping is live, a declared perf-map function that
+covers the address and that no later line displaces is the one the address resolves to. -/
+theorem C02_resolve_complete_jit (q : List (Nat × MapAdd)) (t a : Nat) (pre later : List MapAdd) (m : MapAdd)
+    (hreg : resolveDecl q t a = none) (hc : covers m a = true) (hl : later.any (overlaps m) = false) :
+    resolveH q t (pre ++ m :: later) a = some m := by
+  unfold resolveH
+  rw [hreg]
+  exact C02_resolve_complete _ a pre later m rfl hc hl
+
+/-- Call-chain order: the emitted frame list is the root-first list of the recorded frames (the chain
+reversed, each frame attributed by the second pass) with every JS-classified frame expanded to label frame +
+native frame (`expandJs`, the declarative look-back rule); nothing else is dropped or invented: between one
+and two frames per recorded frame, and exactly the attributed frames when no frame is JS-classified. -/
+theorem C02_order (maps pm : List MapAdd) (stack : List SFrame) :
+    convertStack maps pm stack = expandJs ((stack.map (secondPass maps pm)).reverse) ∧
+    stack.length ≤ (convertStack maps pm stack).length ∧
+    (convertStack maps pm stack).length ≤ 2 * stack.length ∧
+    ((∀ f ∈ stack, (secondPass maps pm f).js = none) →
+      convertStack maps pm stack = (stack.map (fun f => (secondPass maps pm f).frame)).reverse) := by
+  have hrev : stack.reverse.map (secondPass maps pm) = (stack.map (secondPass maps pm)).reverse := by
+    rw [List.map_reverse]
+  unfold convertStack convertStackX
+  simp only [Option.toList_none, List.nil_append]
+  refine ⟨?_, ?_, ?_, ?_⟩
+  · rw [emitJs_eq_expandJs, hrev]
+  · have := (emitJs_length none (stack.reverse.map (secondPass maps pm))).1
+    simpa using this
+  · have := (emitJs_length none (stack.reverse.map (secondPass maps pm))).2
+    simpa using this
+  · intro h
+    rw [emitJs_no_js]
+    · simp [List.map_reverse]
+    · intro i hi
+      simp only [List.mem_map, List.mem_reverse] at hi
+      obtain ⟨f, hf, rfl⟩ := hi
+      exact h f hf
+
+/-- Without a perf map the conversion is the regular-library attribution frame by frame (the statement of
+`C02_order` before JIT frames were modelled). -/
+theorem C02_order_regular (maps : List MapAdd) (stack : List SFrame)
+    (hjs : ∀ m ∈ maps, m.js = none) :
+    convertStack maps [] stack = (stack.map (convertFrame maps)).reverse ∧
+    (convertStack maps [] stack).length = stack.length := by
+  have hno : ∀ f ∈ stack, (secondPass maps [] f).js = none := by
+    intro f _
+    unfold secondPass lookupH
+    simp only
+    split
+    · rfl
+    · cases hl : lookupMap maps f.lookupAddr with
+      | none => simp [lookupMap]
+      | some m =>
+        simp only
+        exact hjs m (List.mem_of_find?_eq_some hl)
+  have h := (C02_order maps [] stack).2.2.2 hno
+  refine ⟨by rw [h]; rfl, by rw [h]; simp⟩
 
 /-- A forked process starts with exactly the parent's announced mappings (`hkey`: the process table is keyed
 by the processes' own pids — an invariant of every reachable state, see `Lemmas/ConvInv.lean`). -/
@@ -118,15 +230,46 @@ theorem C02_queue_push_sorted (q : List (Nat × MapAdd)) (t : Nat) (m : MapAdd) 
 
 /-! ### Non-vacuity: nested, replaced and adjacent mappings -/
 def C02_exQ : List (Nat × MapAdd) :=
-  [(10, ⟨0x1000, 0x5000, 0, "a"⟩), (20, ⟨0x2000, 0x3000, 0x100, "b"⟩), (30, ⟨0x5000, 0x6000, 0, "c"⟩)]
+  [(10, ⟨0x1000, 0x5000, 0, "a", none⟩), (20, ⟨0x2000, 0x3000, 0x100, "b", none⟩), (30, ⟨0x5000, 0x6000, 0, "c", none⟩)]
 
 example : SortedQ C02_exQ := by unfold SortedQ C02_exQ; decide
-example : resolveDecl C02_exQ 15 0x2800 = some ⟨0x1000, 0x5000, 0, "a"⟩ := by decide
-example : resolveDecl C02_exQ 20 0x2800 = some ⟨0x2000, 0x3000, 0x100, "b"⟩ := by decide
+example : resolveDecl C02_exQ 15 0x2800 = some ⟨0x1000, 0x5000, 0, "a", none⟩ := by decide
+example : resolveDecl C02_exQ 20 0x2800 = some ⟨0x2000, 0x3000, 0x100, "b", none⟩ := by decide
 -- the nested mapping displaced the outer one entirely: the rest of the old range is unmapped now
 example : resolveDecl C02_exQ 25 0x4000 = none := by decide
 example : expectFrame C02_exQ 30 (.ret 0x5000 false) = .raw 0x4fff := by decide
 example : expectFrame C02_exQ 30 (.ip 0x5000 false) = .lib "c" 0 := by decide
+
+/-! ### Non-vacuity: a perf map with a displaced function, a regular mapping that wins, JS label frames -/
+def C02_exLines : List (List Char) :=
+  ["5000 10 py::f".toList, "not a line".toList, "0x5010 0x20 Builtin:x".toList, "7000 40 Interpreter: run (a.js:3:4)".toList,
+   "7010 10 Ion: late".toList, "2800 10 py::shadowed".toList]
+
+def C02_exPm : List MapAdd := pmDecl "/tmp/perf-100.map" 0 (C02_exLines.filterMap parsePmLine)
+
+example : (C02_exLines.filterMap parsePmLine).length = 5 := by decide
+example : C02_exPm.map (·.rel) = [0, 0x10, 0x30, 0x70, 0x80] := by decide
+example : loadPmLines "/tmp/perf-100.map" [] 0 (C02_exLines.filterMap parsePmLine) = some (C02_exPm.foldl applyAdd []) := by
+  decide
+-- a regular mapping covers 0x2800: the perf-map function declared there is never consulted
+example : (resolveH C02_exQ 20 C02_exPm 0x2800).map (·.lib) = some "b" := by decide
+-- before the regular mappings are announced the perf-map function resolves
+example : (resolveH C02_exQ 5 C02_exPm 0x2800).map (fun m => (m.lib, m.rel)) = some ("/tmp/perf-100.map", 0x80) := by decide
+-- "Ion: late" [0x7010, 0x7020) displaced the whole of "Interpreter: run" [0x7000, 0x7040)
+example : resolveH C02_exQ 30 C02_exPm 0x7008 = none := by decide
+example : (expectInfo C02_exQ 30 C02_exPm (.ret 0x7020 false)) =
+    { frame := .lib "/tmp/perf-100.map" 0x7f, js := some (.regular (.nonSelfHosted "late")) } := by decide
+example : expandJs [expectInfo C02_exQ 25 C02_exPm (.ip 0x5001 false), expectInfo C02_exQ 25 C02_exPm (.ret 0x5011 false),
+      expectInfo C02_exQ 25 C02_exPm (.ret 0x9000 false)] =
+    [.label "f", .lib "/tmp/perf-100.map" 1, .lib "/tmp/perf-100.map" 0x10, .raw 0x8fff] := by decide
+-- the baseline-interpreter hand-over: regular x, plain, BaselineInterpreter (takes x), BaselineInterpreter (nothing left)
+example : expandJs [⟨.raw 1, some (.regular (.nonSelfHosted "x"))⟩, ⟨.raw 2, none⟩, ⟨.raw 3, some .baselineInterp⟩,
+      ⟨.raw 4, some .baselineInterp⟩, ⟨.raw 5, some (.stub (.selfHosted "s"))⟩] =
+    [.label "x", .raw 1, .raw 2, .label "x", .raw 3, .raw 4, .raw 5] := by decide
+-- arithmetic panics of the loader
+example : loadPmLines "p" [] 0 [⟨2 ^ 64 - 1, 1, ['f']⟩] = none := by decide
+example : loadPmLines "p" [] 0 [⟨0, 2 ^ 32 - 1, ['f']⟩, ⟨0, 1, ['g']⟩] = none := by decide
+example : (loadPmLines "p" [] 0 [⟨0, 2 ^ 32, ['f']⟩, ⟨0, 1, ['g']⟩]).isSome = true := by decide
 
 /-! ## Segment-based attribution (the mapped file is present on disk)
 
